@@ -153,27 +153,44 @@ def cas_shape(ctx, R, rule, q, table, label):
     if isinstance(exec_stmt, ast.Assign) and isinstance(
             exec_stmt.targets[0], ast.Name):
         res_name = exec_stmt.targets[0].id
+    # stated over branch literals: the conflict is raised exactly when
+    # rowcount != 1 and the in-memory generation advances exactly when
+    # rowcount == 1 - "if rc != 1: raise; store" and "if rc == 1: store;
+    # return; raise" are one shape
+    def rc_literal(node):
+        """(True/False, ok): the single literal under which node runs, as
+        'rowcount == 1' polarity."""
+        ls = C.conds(node, f.node, implicit=True)
+        if len(ls) != 1:
+            return None
+        e, pol = ls[0]
+        if not (isinstance(e, ast.Compare) and len(e.ops) == 1 and
+                res_name is not None and src(e.left) ==
+                '%s.rowcount' % res_name and isinstance(
+                    e.comparators[0], ast.Constant)
+                and e.comparators[0].value == 1):
+            return None
+        if isinstance(e.ops[0], ast.Eq):
+            return pol
+        if isinstance(e.ops[0], ast.NotEq):
+            return not pol
+        return None
+    raises_ = [x for x in own_nodes(f.node) if isinstance(x, ast.Raise)
+               and x.exc is not None]
     guard = None
-    for n in own_nodes(f.node):
-        if isinstance(n, ast.If) and isinstance(n.test, ast.Compare) and \
-                len(n.test.ops) == 1 and res_name is not None and src(
-                    n.test.left) == '%s.rowcount' % res_name:
-            guard = n
     r_ok = False
     found_r = 'no rowcount test'
-    if guard is not None:
-        op = guard.test.ops[0]
-        rhs = guard.test.comparators[0]
-        found_r = src(guard.test)
-        shape = isinstance(op, ast.NotEq) and isinstance(
-            rhs, ast.Constant) and rhs.value == 1
-        raises = [x for x in guard.body if isinstance(x, ast.Raise)]
-        exc = ctx.raises.exc_name(f, raises[0].exc) if raises and \
-            raises[0].exc is not None else None
+    if len(raises_) == 1:
+        exc = ctx.raises.exc_name(f, raises_[0].exc)
         sub = exc is not None and ctx.raises.is_subclass(exc, CUD)
-        found_r += ' raises %s' % exc
-        r_ok = shape and sub and len(guard.body) == 1 and not guard.orelse \
-            and g.dominates(exec_stmt, guard)
+        lit = rc_literal(raises_[0])
+        found_r = 'raise %s when rowcount == 1 is %s' % (exc, lit)
+        guard = C.outer_if(raises_[0], f.node)
+        if guard is None:
+            ig = C.implicit_guards(raises_[0], f.node)
+            guard = ig[0][0] if ig else None
+        r_ok = bool(sub) and lit is False and guard is not None and \
+            g.dominates(exec_stmt, guard)
     R.ob(rule, '%s:rowcount' % label, r_ok,
          'rowcount != 1 raises a ConcurrentUpdateDetected subclass right '
          'after the UPDATE', found_r, func=f, node=guard or exec_stmt)
@@ -181,7 +198,7 @@ def cas_shape(ctx, R, rule, q, table, label):
     stores = [n for n in own_nodes(f.node) if isinstance(n, ast.Assign)
               and any(src(t) == 'self.generation' for t in n.targets)]
     s_ok = len(stores) == 1 and guard is not None and g.dominates(
-        guard, stores[0]) and (
+        exec_stmt, stores[0]) and rc_literal(stores[0]) is True and (
             (new_name is not None and src(stores[0].value) == new_name) or
             (g_name and src(stores[0].value).replace(' ', '') in (
                 '%s+1' % g_name, '1+%s' % g_name)))
